@@ -14,9 +14,11 @@ pub mod c11;
 pub mod c12;
 pub mod c13;
 pub mod c14;
+pub mod c15;
 pub mod c16;
 pub mod c17;
 pub mod c18;
+pub mod c19;
 
 pub fn property(id: &str) -> Option<Property> {
     match id {
@@ -34,9 +36,11 @@ pub fn property(id: &str) -> Option<Property> {
         "C12" => Some(c12::property()),
         "C13" => Some(c13::property()),
         "C14" => Some(c14::property()),
+        "C15" => Some(c15::property()),
         "C16" => Some(c16::property()),
         "C17" => Some(c17::property()),
         "C18" => Some(c18::property()),
+        "C19" => Some(c19::property()),
         _ => None,
     }
 }
